@@ -405,9 +405,9 @@ class Prop:
             'configuration, shape of input attributes, shape of the observation)')
     exhaustive = {'quick': False, 'thorough': False}
     trusted_base = [
-        'attribute vectors are built in the harness with Attribute::new_with_value / new_with_bin / new_opaque (flags of '
-        'recognised attributes are therefore the canonical ones; non-canonical Partial / Extended-Length bits on recognised '
-        'attributes are in the model but are not exercised against the implementation)',
+        'attribute vectors are built in the harness with Attribute::new_with_value / new_with_bin / new_opaque, and, for '
+        'recognised attributes with non-canonical flag bits (Partial, Extended Length, unused bits), by parsing a one-attribute '
+        'UPDATE with the real PeerCodec::parse_message',
         "run_select's `if is_as_loop {continue}` (event/mod.rs) is glue replicated in the harness: is_as_loop and "
         'PeerSession::rx_update are the real functions, the Loc-RIB is read back through TableManager::collect_loc_rib_paths',
         'export policy is an arbitrary function in the theorems (a Gallina parameter); against the implementation it is '
@@ -530,6 +530,20 @@ class Prop:
                               rng.choice([0xC0, 0x80, 0x40]), 2, be32(rng.choice([LOCAL_AS, 7]))])   # opaque, known code
             elif k < 0.42:
                 attrs.append([COMMUNITY, 0xC0, 1, [255, 255, 0]])   # ragged community list
+        # flag bits only the decoder can put on a recognised attribute: Partial, Extended
+        # Length, the four unused bits (the harness then builds that attribute by parsing an
+        # UPDATE); only on values the decoder accepts
+        for a in attrs:
+            if a[2] != 2 and a[0] in (ORIGIN, AS_PATH, MED, LOCAL_PREF, COMMUNITY, ORIGINATOR_ID, CLUSTER_LIST,
+                                      EXT_COMMUNITY, AIGP, LARGE_COMMUNITY) and rng.random() < 0.12:
+                if a[0] == AS_PATH and (a[2] != 1 or parse_path(a[3]) is None):
+                    continue
+                if a[0] in (COMMUNITY, CLUSTER_LIST) and len(a[3]) % 4:
+                    continue
+                if a[2] == 1 and len(a[3]) > 255:
+                    a[1] = CANON[a[0]] | 0x10 | rng.choice([0, 0x20])
+                else:
+                    a[1] = CANON[a[0]] | rng.choice([0x20, 0x10, 0x30, 0x01, 0x2f])
         if rng.random() < (0.15 if mode == 'wire' else 0.3):
             rng.shuffle(attrs)
         return attrs
